@@ -1,8 +1,11 @@
 INIT Init
 NEXT Next
 CONSTANTS
-  MaxLen = 3
-  WithLonger = FALSE
+  MaxLen = 2
+  CoreLen = 3
+  TightLen = 3
+  QLen = 3
+  SLen = 3
   AlphaCap = 4
   LenCap = 3
   Budget = 100
